@@ -362,6 +362,36 @@ func (r *runner) invariants() {
 			r.vio("C19", "pending-nonce", discr, "GetPendingNonceByAccount(A%d) = %d, but the next nonce that would become ready is %d (committed nonce %d)", a, got, want, m.ledgerNonce[a])
 		}
 	}
+	// C19: "nor misreports its content" - the pool-size report the API uses to turn transactions away. What exactly
+	// counts as held is not specified (the pool also remembers the hashes of superseded transactions), so only the two
+	// unambiguous cases are judged: full although even the generous count is below the limit, and not full although
+	// the certain count has reached it. Not after the commit of transactions the pool never saw (known finding: its
+	// bookkeeping for that account is stale).
+	if r.cfg.PoolSize > 0 {
+		lower, upper := 0, 0
+		foreign := false
+		for _, f := range m.foreignHit {
+			foreign = foreign || f
+		}
+		for _, mt := range m.byHash {
+			switch mt.status {
+			case "held":
+				lower++
+				upper++
+			case "superseded", "dropped":
+				upper++
+			}
+		}
+		if !foreign {
+			full := r.pool.IsPoolFull()
+			r.res.Count("probe_pool_size_report_checked")
+			if full && upper < r.cfg.PoolSize {
+				r.vio("C19", "pool-size-misreported", "full", "IsPoolFull() = true although the pool was given at most %d transactions that are neither committed nor evicted (%d of them certainly held) and its limit is %d", upper, lower, r.cfg.PoolSize)
+			} else if !full && lower >= r.cfg.PoolSize {
+				r.vio("C19", "pool-size-misreported", "not-full", "IsPoolFull() = false although the pool certainly holds %d transactions and its limit is %d", lower, r.cfg.PoolSize)
+			}
+		}
+	}
 	if readyUnbatched {
 		r.res.Count("probe_ready_unbatched_exists")
 		if !r.pool.HasPendingRequest() {
